@@ -76,8 +76,10 @@ def controlled_run(P, cfg, choices, strategy):
         try:
             return orig_run(self)
         finally:
-            with mon.lock:
-                mon.exited.add(id(self))
+            # (workers that are still parked when the controlled execution ends are unwound by the scheduler's teardown: not an exit of the pool's making)
+            if not getattr(sc, "aborting", False):
+                with mon.lock:
+                    mon.exited.add(id(self))
     S.Worker.run = sc.wrap_thread_entry(run_wrapped, "worker")
 
     def start(self):
